@@ -274,66 +274,6 @@ async def _run_async_execute(
                 result = await func()
             else:
                 result = await asyncio.wait_for(func(), timeout=attempt_timeout_s)
-
-            # Success path: check if result needs classification
-            needs_retry, classification = should_classify_result(policy, result)
-            if not needs_retry:
-                _handle_success_attempt_end(attempt_end_hook, state, attempt, result)
-                return cast(
-                    RetryOutcome[T],
-                    _build_outcome(
-                        ok=True, value=result, state=state, attempts=attempts, timeline=timeline
-                    ),
-                )
-            assert classification is not None
-
-            # Result-based retry
-            state.check_abort(attempt)
-            attempt_state.classification = classification
-            attempt_state.result = result
-            attempt_state.cause = "result"
-            decision = state.handle_result(result, classification, attempt)
-            if decision.action != "raise":
-                state.check_abort(attempt)
-
-            outcome = await _async_failure_outcome(
-                state=state,
-                attempt=attempt,
-                decision=decision,
-                classification=classification,
-                exception=None,
-                result=result,
-                cause=attempt_state.cause,
-                sleep_fn=sleep_fn,
-                before_sleep=before_sleep,
-                sleeper=sleeper,
-            )
-            _call_attempt_end_from_outcome(
-                attempt_end_hook, state=state, attempt=attempt, outcome=outcome
-            )
-            attempt_state.end_called = True
-
-            action = determine_action_from_outcome(outcome, state, attempt, for_result=True)
-            if isinstance(action, ContinueAction):
-                continue
-            if isinstance(action, AbortAction):
-                return cast(RetryOutcome[T], _abort_outcome(state, attempts, timeline=timeline))
-
-            next_sleep_s = (
-                outcome.sleep_s if outcome.decision is AttemptDecision.SCHEDULED else None
-            )
-            return cast(
-                RetryOutcome[T],
-                _build_outcome(
-                    ok=False,
-                    value=None,
-                    state=state,
-                    attempts=attempts,
-                    next_sleep_s=next_sleep_s,
-                    timeline=timeline,
-                ),
-            )
-
         except AbortRetryError as exc:
             _handle_abort_attempt_end(attempt_end_hook, state, attempt, attempt_state, exc)
             return cast(RetryOutcome[T], _abort_outcome(state, attempts, timeline=timeline))
@@ -397,5 +337,72 @@ async def _run_async_execute(
                     timeline=timeline,
                 ),
             )
+
+        # Success path: check if result needs classification
+        needs_retry, classification = should_classify_result(policy, result)
+        if not needs_retry:
+            _handle_success_attempt_end(attempt_end_hook, state, attempt, result)
+            return cast(
+                RetryOutcome[T],
+                _build_outcome(
+                    ok=True, value=result, state=state, attempts=attempts, timeline=timeline
+                ),
+            )
+        assert classification is not None
+
+        # Result-based retry
+        try:
+            state.check_abort(attempt)
+        except AbortRetryError as exc:
+            _handle_abort_attempt_end(attempt_end_hook, state, attempt, attempt_state, exc)
+            return cast(RetryOutcome[T], _abort_outcome(state, attempts, timeline=timeline))
+        attempt_state.classification = classification
+        attempt_state.result = result
+        attempt_state.cause = "result"
+        decision = state.handle_result(result, classification, attempt)
+        if decision.action != "raise":
+            try:
+                state.check_abort(attempt)
+            except AbortRetryError as exc:
+                _handle_abort_attempt_end(attempt_end_hook, state, attempt, attempt_state, exc)
+                return cast(RetryOutcome[T], _abort_outcome(state, attempts, timeline=timeline))
+
+        outcome = await _async_failure_outcome(
+            state=state,
+            attempt=attempt,
+            decision=decision,
+            classification=classification,
+            exception=None,
+            result=result,
+            cause=attempt_state.cause,
+            sleep_fn=sleep_fn,
+            before_sleep=before_sleep,
+            sleeper=sleeper,
+        )
+        _call_attempt_end_from_outcome(
+            attempt_end_hook, state=state, attempt=attempt, outcome=outcome
+        )
+        attempt_state.end_called = True
+
+        action = determine_action_from_outcome(outcome, state, attempt, for_result=True)
+        if isinstance(action, ContinueAction):
+            continue
+        if isinstance(action, AbortAction):
+            return cast(RetryOutcome[T], _abort_outcome(state, attempts, timeline=timeline))
+
+        next_sleep_s = (
+            outcome.sleep_s if outcome.decision is AttemptDecision.SCHEDULED else None
+        )
+        return cast(
+            RetryOutcome[T],
+            _build_outcome(
+                ok=False,
+                value=None,
+                state=state,
+                attempts=attempts,
+                next_sleep_s=next_sleep_s,
+                timeline=timeline,
+            ),
+        )
 
     return cast(RetryOutcome[T], build_exhausted_outcome(state, policy, attempts, timeline))
